@@ -56,6 +56,7 @@ var importRules = map[string]importRule{
 	"os/signal":                          {newPath: "verifsim/sim/simsignal", name: "signal"},
 	"os":                                 {newPath: "verifsim/sim/simos", name: "os", only: map[string]bool{"cred/manager.go": true}},
 	Module + "/mmap":                     {newPath: "verifsim/sim/simos/simmmap", name: "mmap", only: map[string]bool{"cred/manager.go": true}},
+	"path/filepath":                      {newPath: "verifsim/sim/simos/simfilepath", name: "filepath", only: map[string]bool{"cred/manager.go": true}},
 }
 
 // noYieldDirs are directories whose files get no yield points (not on any property's path).
